@@ -417,7 +417,8 @@ def construct(n, prog, env):
                 p = lw.Parameter(env.R2, label="r%d" % len(params)); params.append(p)
                 c.bs(op[1], op[2], reflectivity=p)
             elif k == "psP":
-                p = lw.Parameter(env.PH[0], label=("phi%d" % len(params)) if op[2] else None); params.append(p)
+                p = lw.Parameter(op[3] if len(op) > 3 else env.PH[0], label=("phi%d" % len(params)) if op[2] else None)
+                params.append(p)
                 c.ps(op[1], p)
             elif k == "lossP":
                 p = lw.Parameter(env.L2, bounds=[0, 1], label="l%d" % len(params)); params.append(p)
